@@ -63,9 +63,11 @@ FILES = {
                                                     'sass::BinOp::eval (and/or branches, extracted range)',
                                                     'sass::Value::do_evaluate (map-literal arm: duplicate-key check, extracted range)',
                                                     'sass::Value::do_evaluate (inline if() function, extracted range)']),
+    'strfns_arith.rs': dict(module='sass::functions::string::kani_verif_arith', src='rsass/src/sass/functions/string.rs',
+                            unit='U-strfns', functions=['string.slice (index arithmetic: start, end, count; extracted ranges of the closure)',
+                                                        'string.insert (index arithmetic; extracted range of the closure)']),
     'strfns.rs': dict(module='sass::functions::string::kani_verif', src='rsass/src/sass/functions/string.rs',
-                      unit='U-strfns', functions=['string.slice (index arithmetic: start, end, count; extracted ranges of the closure)',
-                                                  'string.insert (index arithmetic; extracted range of the closure)']),
+                      unit='U-strfns', functions=['string.slice / insert / index / length / to-upper-case / to-lower-case (complete closure bodies, extracted ranges)']),
     'colorfns.rs': dict(module='sass::functions::color::hsl::kani_verif', src='rsass/src/sass/functions/color/hsl.rs',
                         unit='U-colorfns', functions=['color.lighten / darken / saturate / desaturate / grayscale / complement (channel arithmetic; extracted ranges of the closures)']),
     'cssdata.rs': dict(module='output::cssdata::kani_verif', src='rsass/src/output/cssdata.rs',
@@ -98,6 +100,8 @@ FILES = {
                               unit='U-colorfns', functions=['color.opacify / fade-in, transparentize / fade-out (complete closure bodies, extracted ranges)']),
     'cssstring.rs': dict(module='css::string::kani_verif', src='rsass/src/css/string.rs',
                          unit='U-escape', functions=['CssString::unquote (digit accumulation of an escape; extracted range)']),
+    'mapfns.rs': dict(module='sass::functions::map::kani_verif', src='rsass/src/sass/functions/map.rs',
+                      unit='U-mapfns', functions=['map::do_merge (worker of map.merge; extracted, instantiated at a mock value type)']),
     'comment.rs': dict(module='css::comment::kani_verif', src='rsass/src/css/comment.rs',
                        unit='U-comment', functions=['Comment::write']),
 }
@@ -109,6 +113,7 @@ BOUNDED_FILES = {
     'ordermap.rs': 'maps of at most 3 entries; key type u8 with == modulo 4',
     'opt.rs': 'sequences of at most 4 items, payload type u8',
     'value.rs': 'one representative payload per non-recursive constructor (no nested Value)',
+    'mapfns.rs': 'concrete maps of at most 3 entries at a mock value type (atoms and nested maps)',
     'comment.rs': 'three concrete comment texts (single line, multi-line indented deeper than its block), two styles',
     'transformfns.rs': 'eight representative condition values; @while: at most 3 iterations',
     'scopefns.rs': 'at most three variables and two-element list values; six representative condition values',
@@ -140,6 +145,8 @@ OVERRIDES = [
     (r'^c26_(slice_(whole|first|negative|empty|zero|far)|insert_(at|after|past|zero|minus|far|into)|index_first|length_counts|case_functions)', dict(bounded='the concrete string "äbc" (and four other literals), seven concrete index pairs / indices',
         functions=['string.slice / insert / index / length (complete closure bodies, extracted ranges)'])),
     (r'^c29_number_', dict(functions=['Number::ceil', 'Number::floor', 'Number::round', 'Number::abs', 'Number::trunc'])),
+    (r'^c29_clamp_', dict(bounded='four concrete (min, number, max) triples in px', functions=['math.clamp (complete closure body, extracted range)'],
+                          kind='attempt', tier='thorough', timeout=2400)),  # measured: > 900 s (UnitSet::is_compatible builds BTreeMaps)
     (r'^c29_percentage', dict(bounded='four probe values')),
     (r'^c29_(ceil|floor|round)_keeps_unit', dict(bounded='three probe values (2.5, -2.5, 7); the primitives are complete in number.rs')),
     (r'^c29_unitless_', dict(bounded='four concrete units (none, %, fr, px), one harness each', functions=['math::unitless (argument check of pow / sqrt / log / exp)'])),
@@ -183,6 +190,7 @@ OVERRIDES = [
     (r'^c12_operator_cmp', dict(bounded='unit px only', kind='attempt', tier='thorough', timeout=900)),
     (r'^c29_unitless_rejects_', dict(kind='attempt', tier='thorough', timeout=2400)),  # measured: > 900 s (error path builds the message through core::fmt)
     (r'^c36_comment_write_compressed_', dict(kind='attempt', tier='thorough', timeout=2400)),  # measured: > 900 s (str::lines / str::replace machinery)
+    (r'^c13_merge_order_and_values$', dict(kind='attempt', tier='thorough', timeout=2400)),  # measured: > 900 s (recursive value type)
     (r'^c18_named_in_any_order$', dict(kind='attempt', tier='thorough', timeout=2400)),  # measured: runs out of memory (two removals from OrderMap<Name, _>)
     (r'^c11_unitset_scale_to_power_of_unit_is_none$', dict(kind='attempt', tier='thorough', timeout=2400)),  # measured: > 900 s (BTreeMap in UnitSet::dimension)
     (r'^c11_numeric_cmp_', dict(bounded='13 representative ordered unit pairs, probe magnitudes 1 and 3')),
@@ -216,6 +224,8 @@ EXTRA_PROPS = [
     (r'^c01_get_indent|^c01_cssbuf|^c01_long_indent', ['C07']),
     (r'^c36_comment_write_compressed', ['C07']),
     (r'^c07_into_buffer_tail', ['C01']),
+    (r'^c28_index_of$', ['C01']),
+    (r'^c26_(slice_(whole|first|negative|empty|zero|far)|insert_(at|after|past|zero|minus|far|into)|index_first|length_counts)', ['C01']),
     (r'^c01_range_new', ['C17']),
     (r'^c31_color_set_alpha|^c31_.*set_alpha', ['C32']),
     (r'^c01_number_into_integer', ['C28', 'C17']),
@@ -234,13 +244,15 @@ SNIP = ('K-snippet: the verified text is a statement range cut out of /repo\'s c
 FILE_ASSUMPTIONS = {
     'evalops.rs': [SNIP + 'Operand evaluation (do_evaluate) is replaced by a probe that returns a harness-chosen value and records the call; '
                    'BinOp::eval\'s error type is instantiated at (); the map-literal arm is instantiated at a u8 key type with == modulo 4 and a local Error stand-in'],
-    'strfns.rs': [SNIP + 'Argument fetches (s.get / s.get_map) are replaced by parameters'],
+    'strfns.rs': [SNIP + 'Argument fetches are replaced: s.get(name!(x))? -> the real TryFrom<Value> conversion applied to a harness value, s.get_map(name!(x), check::unitless_int)? -> an i64 parameter'],
+    'strfns_arith.rs': [SNIP + 'Argument fetches (s.get / s.get_map) are replaced by parameters'],
     'mathfns.rs': [SNIP + 'Argument fetches (s.get / s.get_map) are replaced by parameters'],
     'transformfns.rs': [SNIP + 'Condition evaluation, body execution, the scope\'s format and the destination are replaced by probes that return harness-chosen values and count calls'],
     'scopefns.rs': [SNIP + 'self.define / the scope\'s variable map / define_global / get_or_none / eval_body are replaced by recording probes; '
                     'define_multi is instantiated at element type u8 (iter_items -> a Vec<u8>)'],
     'formalargs.rs': [SNIP + 'css::CallArgs is instantiated at a two-variant value type V (bodies of its methods extracted as well, OrderMap real); the sub-scope is a recording binder; '
                       'FormalArgs\' two fields are parameters with the default type instantiated at u8; ArgsError and Invalid are local stand-ins with the constructors the ranges use'],
+    'mapfns.rs': [SNIP + 'css::Value is replaced by a mock enum with the constructors the functions use (Atom, Map); OrderMap is the real generic one'],
     'cssdata.rs': [SNIP + 'The (never constructed) error type of the result is ()'],
     'cssstring.rs': [SNIP + 'Only the accumulation step of CssString::unquote; the character iterator is a probe; checked for every u32 accumulator value (inductive step)'],
     'colorfns.rs': [DEG_MOD, SNIP + 'Argument fetches are replaced by parameters'],
